@@ -39,6 +39,11 @@ TraceNext ==
      THEN /\ tid' = e.tid
           /\ st' = PInit(e.c)
           /\ bad' = 0
+     ELSE IF bad >= MaxHard /\ e.op = "panic"
+     THEN \* the rest of a rejected trace is not judged (its state is unknown),
+          \* with one exception that needs no state: a public call that panics
+          /\ TLCSet(1, Append(TLCGet(1), [tid |-> tid, line |-> l, why |-> {"C16.no_panic"}]))
+          /\ UNCHANGED <<tid, st, bad>>
      ELSE IF bad >= MaxHard \/ e.op = "end"
      THEN UNCHANGED <<tid, st, bad>>
      ELSE LET why == PWhy(st, e, Heavy) IN
